@@ -379,13 +379,20 @@ theorem history_independent {p : Params} {kindOf : Nat → OutKind} {C : List Bl
   · unfold replay; rw [replayFrom_eq, hd]
   · intro k; rw [inv.contracts k, replayC_nil_get]
 
-/-- two different histories ending on the same main chain -/
-example : ∃ st, Reach p1 kind1 ([blk0, blk1] ++ [blk2']) st := by
-  have r0 : Reach p1 kind1 ([] ++ [blk0, blk1, blk2]) _ :=
+/-- two different histories ending on the same main chain `[blk0, blk1, blk2]`: one went through
+    the competing block `blk2'` first and was reorganised, the other never saw a fork.  The raw
+    tables differ (the first keeps the spent record of `blk2'`'s vote output o8) -/
+example : ∃ st1 st2, Reach p1 kind1 ([blk0, blk1] ++ [blk2]) st1 ∧ Reach p1 kind1 ([] ++ [blk0, blk1, blk2]) st2 ∧
+    st1 ≠ st2 := by
+  have r0 : Reach p1 kind1 ([] ++ [blk0, blk1, blk2']) _ :=
+    Reach.reorg (P := []) (A := []) (B := [blk0, blk1, blk2']) (st := ([], [])) Reach.genesis
+      (by decide) (by decide) (by decide) (noReuse_of_disjoint_ids (by decide)) rfl
+  have r1 := Reach.reorg (P := [blk0, blk1]) (A := [blk2']) (B := [blk2]) r0
+    (by decide) (by decide) (by decide) (noReuse_of_disjoint_ids (by decide)) rfl
+  have r2 : Reach p1 kind1 ([] ++ [blk0, blk1, blk2]) _ :=
     Reach.reorg (P := []) (A := []) (B := [blk0, blk1, blk2]) (st := ([], [])) Reach.genesis
       (by decide) (by decide) (by decide) (noReuse_of_disjoint_ids (by decide)) rfl
-  exact ⟨_, Reach.reorg (P := [blk0, blk1]) (A := [blk2]) (B := [blk2']) r0
-    (by decide) (by decide) (by decide) (noReuse_of_disjoint_ids (by decide)) rfl⟩
+  exact ⟨_, _, r1, r2, by decide⟩
 
 /-- `reorg_eq_replay` read on the node model: `s` holds the ledger of `P ++ A`; `att` / `det`
     name the blocks of `B` (ascending) and `A` (tip first) -/
@@ -402,6 +409,49 @@ theorem ledgerReorg_eq_replay (s : NodeLedger.State) {P A B : List Blk} {uB : Vi
       (∀ k, cget c k = cget cB k) := by
   rw [ledgerReorg_eq, hatt, hdet]
   exact reorg_eq_replay hA hB hwA hwB hk hnr
+
+/-- a node state meeting the hypotheses of `ledgerReorg_eq_replay`: blocks 0,1 = `blk0, blk1`,
+    block 2 = `blk2` (old tip), block 3 = `blk2'` (new tip) -/
+def sEx : NodeLedger.State :=
+  { node := Node.State.init { epoch := 2, nVal := 1, me := none } { id := 0, parent := 99, height := 0, slot := 0, rank := 0, sup := [] },
+    params := p1,
+    blockTxs := [(0, blk0.2), (1, blk1.2), (2, blk2.2), (3, blk2'.2)],
+    utxo := [(1, ⟨1, 0, true⟩), (2, ⟨1, 1, false⟩), (3, ⟨2, 1, true⟩), (4, ⟨1, 2, false⟩), (5, ⟨0, 2, false⟩)],
+    contracts := [(9, 102)] }
+
+example :
+    [({ id := 3, parent := 1, height := 2, slot := 0, rank := 0, sup := [] } : Header)].map (fun a => (a.height, sEx.txsOf a.id)) = [blk2'] ∧
+    [({ id := 2, parent := 1, height := 2, slot := 0, rank := 0, sup := [] } : Header)].map (fun d => sEx.txsOf d.id) = [blk2].reverse.map (·.2) ∧
+    replay sEx.params ([blk0, blk1] ++ [blk2]) = some (sEx.utxo, sEx.contracts) ∧
+    (replay sEx.params ([blk0, blk1] ++ [blk2'])).isSome ∧
+    KindsOK sEx.kindOf (flat ([blk0, blk1] ++ [blk2])) := by
+  refine ⟨rfl, rfl, by decide, by decide, by decide⟩
+
+/-- the genesis ledger of the node model is the replay of the genesis block (utxo half; like
+    `initChainStatus`, `State.init` registers no contracts for the genesis block) -/
+theorem init_utxo_is_replay_of_genesis (cfg : Config) (p : Params) (g : Header) (gtxs : List Tx) (d : View)
+    (h : replayU p [(0, gtxs)] [] = some d) : (NodeLedger.State.init cfg p g gtxs).utxo = d := by
+  have hl : ∀ (os : List Nat) (v : View), os.foldl (loadStep []) v = v := by
+    intro os
+    induction os with
+    | nil => intro v; rfl
+    | cons o os ih =>
+      intro v
+      rw [List.foldl_cons]
+      have : loadStep [] v o = v := by
+        unfold loadStep
+        cases vget v o <;> rfl
+      rw [this, ih]
+  simp only [replayU, extendU, loadSpent_eq, hl] at h
+  unfold NodeLedger.State.init
+  cases ha : applyBlockTxs p 0 true gtxs [] with
+  | none => rw [ha] at h; simp at h
+  | some v =>
+    rw [ha] at h
+    simp only [Option.map_some, Option.some.injEq] at h
+    simpa using h
+
+example : replayU p1 [(0, blk0.2)] [] = some [(1, ⟨1, 0, false⟩)] := by decide
 
 /-! ## 3. Acceptance does not depend on history -/
 
@@ -526,5 +576,27 @@ theorem settle_tables (pre : NodeLedger.State) (post : Node.State) (r : Res) :
           | some uc =>
             obtain ⟨u, c⟩ := uc
             exact Or.inr ⟨att, det, by simp [hc, hl]⟩
+
+/-! non-vacuity of the `settle` hypotheses: a node at genesis receives block 1 -/
+def gH : Header := { id := 0, parent := 99, height := 0, slot := 0, rank := 0, sup := [] }
+def b1H : Header := { id := 1, parent := 0, height := 1, slot := 1, rank := 5, sup := [] }
+/-- block 1 carries `blk1`'s transactions (acceptable) or `blk2`'s (they spend o3, which does not exist) -/
+def preEx (txs1 : List Tx) : NodeLedger.State :=
+  let s := NodeLedger.State.init { epoch := 2, nVal := 1, me := none } p1 gH blk0.2
+  { s with node := { s.node with defs := [b1H, gH] }, blockTxs := [(0, blk0.2), (1, txs1)] }
+def postEx : Node.State := ((preEx blk1.2).node.processBlock b1H).1
+
+example : postEx.best ≠ (preEx blk1.2).node.best ∧ (postEx.header postEx.best).isSome ∧
+    (postEx.header (preEx blk1.2).node.best).isSome ∧
+    (postEx.calcReorg (2 * postEx.fuel) b1H gH [] []).isSome := by
+  refine ⟨by decide, by decide, by decide, by decide⟩
+/-- accepted: the tables become those of `ledgerReorg` -/
+example : ((preEx blk1.2).settle postEx .ok).1.utxo =
+    [(1, ⟨1, 0, true⟩), (2, ⟨1, 1, false⟩), (3, ⟨2, 1, false⟩)] ∧ ((preEx blk1.2).settle postEx .ok).2 = .ok := by
+  refine ⟨by decide, by decide⟩
+/-- refused: `.err`, best block and tables unchanged -/
+example : ((preEx blk2.2).settle postEx .ok).2 = .err ∧ ((preEx blk2.2).settle postEx .ok).1.node.best = 0 ∧
+    ((preEx blk2.2).settle postEx .ok).1.utxo = (preEx blk2.2).utxo := by
+  refine ⟨by decide, by decide, by decide⟩
 
 end BytomModel.Props.C10
